@@ -137,6 +137,16 @@ func (E *Engine) fillLeaves(info *types.Info, tc *TypeCtx, t types.Type, e ast.E
 				out[0] = big.NewInt(1)
 			}
 			return true
+		case constant.String:
+			if len(out) < 3 {
+				return false
+			}
+			sv := constant.StringVal(tv.Value)
+			out[0] = new(big.Int).Set(E.strID(sv).C)
+			out[1] = big.NewInt(0)
+			out[2] = big.NewInt(int64(len(sv)))
+			E.strByRef[E.strID(sv).String()] = sv
+			return true
 		}
 		return false
 	}
@@ -203,16 +213,27 @@ func (E *Engine) literalMapFact(x *Exec, globalKey string, mt *types.Map, val Va
 
 // literalMapKeyFact: membership in a never-updated literal map with string keys
 // is equality with one of its keys (only for small maps).
-func (E *Engine) literalMapKeyFact(x *Exec, st *State, globalKey string, key Val, present *Term) *Term {
+func (E *Engine) literalMapKeyFact(x *Exec, st *State, globalKey string, key Val, val Val, present *Term) *Term {
 	rows, ok := E.literalRows(globalKey)
 	if !ok || len(rows) > 8 {
 		return nil
 	}
-	var alts []*Term
+	var alts, facts []*Term
 	for _, r := range rows {
-		alts = append(alts, x.strEq(st, key, E.stringConst(x, r.Key, types.Typ[types.String])))
+		keq := x.strEq(st, key, E.stringConst(x, r.Key, types.Typ[types.String]))
+		alts = append(alts, keq)
+		if len(r.Leaves) == len(val.L) {
+			var eqs []*Term
+			for i, l := range r.Leaves {
+				if val.L[i].S.K == SInt {
+					eqs = append(eqs, Eq(val.L[i], BigC(l)))
+				}
+			}
+			facts = append(facts, Implies(keq, And(eqs...)))
+		}
 	}
-	return Eq(present, Or(alts...))
+	facts = append(facts, Eq(present, Or(alts...)))
+	return And(facts...)
 }
 
 // VerifyRows generates one obligation per (row, clause).
@@ -294,4 +315,83 @@ func (E *Engine) verifyRowCheck(rc *RowCheck, pkgPath string) {
 			}()
 		}
 	}
+}
+
+// VerifyWriteSets: "writeset T.f in f1, f2": every SSA store to field f of
+// struct T in the package must occur in one of the listed functions (the
+// backing of `rely stable` assumptions about unsynchronised shared fields).
+func (E *Engine) VerifyWriteSets() {
+	for _, cf := range E.files {
+		pkgPath := E.pkgOfFile[cf]
+		for _, ws := range cf.WriteSets {
+			E.verifyWriteSet(ws, pkgPath, cf.Path)
+		}
+	}
+}
+
+func (E *Engine) verifyWriteSet(spec, pkgPath, file string) {
+	parts := strings.SplitN(spec, " in ", 2)
+	if len(parts) != 2 {
+		E.configError(file + ": writeset T.f in f1, f2")
+		return
+	}
+	tf := strings.SplitN(strings.TrimSpace(parts[0]), ".", 2)
+	if len(tf) != 2 {
+		E.configError(file + ": writeset T.f in f1, f2")
+		return
+	}
+	allowed := map[string]bool{}
+	for _, a := range strings.Split(parts[1], ",") {
+		allowed[strings.TrimSpace(a)] = true
+	}
+	sp := E.L.Pkgs[pkgPath]
+	if sp == nil {
+		return
+	}
+	base := fmt.Sprintf("%s.%s.%s#writeset", shortPkg(pkgPath), tf[0], tf[1])
+	found := 0
+	mk := func(name, src, where string, ok bool) {
+		if _, dup := E.obligs[name]; dup {
+			return
+		}
+		o := &Oblig{Name: name, Fn: tf[0] + "." + tf[1], Kind: "writeset", Label: tf[1], Src: src, Where: where}
+		if ok {
+			o.Queries = append(o.Queries, &Query{Goal: TrueT, Result: "unsat", Solver: "ssa-scan", Path: "all stores"})
+		} else {
+			o.Queries = append(o.Queries, &Query{Goal: FalseT, Result: "error", Solver: "ssa-scan", Output: src})
+		}
+		E.obligs[name] = o
+		E.order = append(E.order, name)
+	}
+	for _, f := range allFunctions(E.L.Prog, sp) {
+		for _, b := range f.Blocks {
+			for _, in := range b.Instrs {
+				st, ok := in.(*ssa.Store)
+				if !ok {
+					continue
+				}
+				fa, ok := st.Addr.(*ssa.FieldAddr)
+				if !ok {
+					continue
+				}
+				sT := derefT(fa.X.Type())
+				n, ok := sT.(*types.Named)
+				if !ok || n.Obj().Name() != tf[0] {
+					continue
+				}
+				stt := sT.Underlying().(*types.Struct)
+				if stt.Field(fa.Field).Name() != tf[1] {
+					continue
+				}
+				found++
+				fn := relName(f)
+				if !allowed[fn] {
+					pos := E.L.Fset.Position(st.Pos())
+					mk(base+":"+fn, fmt.Sprintf("%s.%s is written by %s, which is not in the declared write set", tf[0], tf[1], fn),
+						fmt.Sprintf("%s:%d", strings.TrimPrefix(pos.Filename, repoSrc+"/"), pos.Line), false)
+				}
+			}
+		}
+	}
+	mk(base+":declared", fmt.Sprintf("%d stores to %s.%s scanned; writers outside {%s} are reported separately", found, tf[0], tf[1], parts[1]), file, found > 0)
 }
